@@ -269,6 +269,14 @@ func (r *RolloutReconciler) reconcileRolloutDisabling(rollout *v1beta1.Rollout, 
 		klog.Errorf("rollout(%s/%s) get workload failed: %s", rollout.Namespace, rollout.Name, err.Error())
 		return nil, err
 	}
+	if workload != nil && !workload.IsStatusConsistent {
+		// a rollout deleted while it is being disabled gets here without the consistency check of
+		// calculateRolloutStatus: the finder returns an empty workload, its revision label key would be
+		// missing and the stable service would be left pinned
+		klog.Infof("rollout(%s/%s) workload status is inconsistent, then wait a moment", rollout.Namespace, rollout.Name)
+		expectedTime := time.Now().Add(time.Duration(defaultGracePeriodSeconds) * time.Second)
+		return &expectedTime, nil
+	}
 	c := &RolloutContext{Rollout: rollout, NewStatus: newStatus, Workload: workload, FinalizeReason: v1beta1.FinaliseReasonDisalbed}
 	done, err := r.doFinalising(c)
 	if err != nil {
